@@ -1,4 +1,4 @@
-import GeomV.C18.Spec
+import GeomV.C18.Observe
 /-!
 Driver for C18: `geomv_c18 judge` reads `x <keep> <runs> <seed> | <objs> => seq=… par=… filt=… filt2=…`
 (format in harness/cmd/c18/main.go) and prints one verdict per line:
@@ -186,6 +186,8 @@ structure Impl where
   seqChk : String
   parRuns : Nat
   parIds : List String
+  parDigs : List String
+  seqDig : String
   parChkFails : Nat
   filt : Option (List String × String × List String)   -- none: skipped
   filtPanic : Bool
@@ -208,8 +210,10 @@ def parseImpl (rhs : List String) : Option Impl := do
         | [ids1, chk1], some ids2 => some (some (splitS ';' ids1, chk1, splitS ';' ids2), false)
         | _, _ => none
     let (fl, fp) ← f
+    let pl := if pids == "none" then [] else splitS ';' pids
     some ⟨← natOf p.toList, ← natOf c.toList, ids, chk, ← natOf runs.toList,
-          if pids == "none" then [] else splitS ';' pids, ← natOf fails.toList, fl, fp⟩
+          pl.map (fun t => (splitS '~' t).headD ""), pl.map (fun t => ((splitS '~' t).drop 1).headD ""),
+          (fieldOf "dig=" rhs).getD "", ← natOf fails.toList, fl, fp⟩
   | _, _ => none
 
 def sizeClass (n : Nat) : String := if n ≤ 6 then "tiny" else if n ≤ 25 then "small" else "large"
@@ -288,6 +292,138 @@ def judgeCancel (n : Nat) (keepTok : String) (doc : Doc) (rhs : List String) : S
     | "crash" :: w => s!"SPEC cancel extraction-crashes-the-process {" ".intercalate w}"
     | _ => "BAD parse"
 
+/-! ## `p` lines: PBF input, the other entry points, and the observers (Geom, CountTags, stored objects) -/
+
+def tagsStr (t : List (Nat × Nat)) : String :=
+  if t.isEmpty then "-" else ";".intercalate (t.map fun kv => s!"{kv.1}={kv.2}")
+
+/-- the object token of the case line (harness `contentOf` renders stored objects in the same form) -/
+def objStr (o : Obj) : String :=
+  match o.key.kind with
+  | .node => s!"n{o.key.id}:{o.x},{o.y}:{tagsStr o.tags}"
+  | .way =>
+    let rs := if o.refs.isEmpty then "-" else ",".intercalate (o.refs.map fun r => toString r.id)
+    s!"w{o.key.id}:{rs}:{tagsStr o.tags}"
+  | .rel =>
+    let rs := if o.refs.isEmpty then "-" else ",".intercalate (o.refs.map refStr)
+    s!"r{o.key.id}:{rs}:{tagsStr o.tags}"
+
+def sortObjs (objs : List Obj) : List Obj := objs.mergeSort fun a b => refLe a.key b.key
+
+def strSort (l : List String) : List String := l.mergeSort fun a b => !(decide (b < a))
+
+def tagMapStr (m : List (Nat × List Nat)) : String :=
+  if m.isEmpty then "{}" else
+  let rows := m.map fun e => keyStr e.1 ++ "=" ++ "|".intercalate (e.2.map valStr)
+  "{" ++ "&".intercalate (strSort rows) ++ "}"
+
+def ptsStr (ps : List (Int × Int)) : String := ";".intercalate (ps.map fun p => s!"{p.1}_{p.2}")
+
+def gitemStr : GItem → String
+  | .node x y t => s!"N{x}_{y}{tagMapStr t}"
+  | .line ps t => s!"L{ptsStr ps}{tagMapStr t}"
+  | .poly ps t => s!"G{ptsStr ps}{tagMapStr t}"
+  | .rel k t =>
+    let ks := match k with | .pg => "pg" | .ml => "ml" | .mp => "mp" | .gc => "gc"
+    s!"R{ks}{tagMapStr t}"
+
+def geomStr (kept rts : List Obj) : String :=
+  match geomItems kept rts with
+  | .error _ => "panic"
+  | .ok items =>
+    let l := strSort (items.map gitemStr)
+    if l.isEmpty then "-" else ",".intercalate l
+
+def countStr : Except Fault2 (List TagCount) → String
+  | .error _ => "panic"
+  | .ok [] => "-"
+  | .ok l => ",".intercalate (l.map fun t =>
+      s!"{keyStr t.key}={valStr t.val}:{t.total}:{t.node}:{t.closedWay}:{t.openWay}:{t.rel}")
+
+def hasSub (s sub : String) : Bool := (s.splitOn sub).length > 1
+
+/-- implementation's CountTags answer in the model's vocabulary (a panic only counts as THE modelled one) -/
+def normCount (s : String) : String :=
+  if s.startsWith "panic:" && hasSub s "index_out_of_range" then "panic" else s
+
+def parseContent (s : String) : Option (List Obj) :=
+  if s == "-" then some [] else (splitS '+' s).mapM parseObj
+
+/-- compare stored objects with the expected ones: `some (true, _)` = reference lists / ids differ (Spec),
+`some (false, _)` = only tags or positions differ (model) -/
+def contentBad (what : String) (got : String) (want : List Obj) : Option (Bool × String) :=
+  match parseContent got with
+  | none => some (false, s!"{what}-unparsable {got}")
+  | some g =>
+    if g.map (fun o => (o.key, o.refs)) != want.map (fun o => (o.key, o.refs)) then
+      some (true, s!"{what}: a-stored-object-does-not-reference-what-the-document's-object-references got={got} want={"+".intercalate (want.map objStr)}")
+    else if g != want then some (false, s!"{what}: tags-or-positions got={got} want={"+".intercalate (want.map objStr)}")
+    else none
+
+def judgePbf (keepTok : String) (doc : Doc) (rhs : List String) : String :=
+  let dang := !noDanglingB doc
+  let emptyWay := doc.any fun o => o.key.kind == .way && o.refs.isEmpty
+  match parseKeep keepTok with
+  | none => "BAD parse"
+  | some (k, ks, kname) =>
+  let cls := s!"pbf-{kname}-{if dang then "dangling" else "closed"}{if emptyWay then "-emptyway" else ""}"
+  if !uniqueKeysB doc then s!"OK {cls}-skipped" else
+  match fieldOf "pbf=" rhs with
+  | none =>
+    match rhs with
+    | "crash" :: w => s!"SPEC {cls} extraction-crashes-the-process {" ".intercalate w}"
+    | "timeout" :: _ => s!"SPEC {cls} extraction-does-not-return"
+    | _ => "BAD parse"
+  | some pbf =>
+  match splitS '/' pbf with
+  | [passes, ids, chk] =>
+    let C := closure doc (specKeep ks)
+    if !closedB doc (specKeep ks) C then s!"DIFF {cls} spec-iteration-did-not-reach-a-closed-set" else
+    let want := idsStr (C.filter (presentB doc))
+    let kept := doc.filter fun o => decide (o.key ∈ C)
+    let f := fun (n : String) => (fieldOf n rhs).getD "missing"
+    -- Spec
+    if ids != want then s!"SPEC {cls} ExtractPBF-is-not-the-least-closed-set got={ids} want={want}"
+    else if !dang && chk != "ok" then s!"SPEC {cls} Check-fails-on-ExtractPBF-of-document-without-dangling-references"
+    else
+    let par := splitS ';' (f "pbfpar=")
+    if par.any (fun t => (splitS '~' t).headD "" != want) then
+      s!"SPEC {cls} result-depends-on-schedule (ExtractPBF) got={";".intercalate par} want={want}"
+    else if par.any (fun t => ((splitS '~' t).drop 1).headD "" != f "seqdig=") then
+      s!"SPEC {cls} result-depends-on-schedule (same ids; stored objects / Geom / CountTags differ) got={";".intercalate par} seq={f "seqdig="}"
+    else
+    match splitS '|' (f "file=") with
+    | [fo, fp, ft] =>
+      if fo != want || fp != want then s!"SPEC {cls} ExtractFile-is-not-the-least-closed-set osm={fo} pbf={fp} want={want}"
+      else if f "tag=" != "skip" && f "tag=" != want then s!"SPEC {cls} ExtractTag-is-not-the-least-closed-set got={f "tag="} want={want}"
+      else
+      let wantObjs := sortObjs kept
+      let cb := [contentBad "ExtractPBF" (f "content=") wantObjs, contentBad "ExtractXML" (f "xcontent=") wantObjs,
+                 contentBad "keepTags=false" (f "nt=") (wantObjs.map (copyObj false))].filterMap id
+      match cb.find? (·.1) with
+      | some (_, w) => s!"SPEC {cls} {w}"
+      | none =>
+      -- Model
+      match cb with
+      | (_, w) :: _ => s!"DIFF {cls} {w}"
+      | [] =>
+      if ft != "err" then s!"DIFF {cls} ExtractFile-accepts-extension-.txt {ft}" else
+      match seqLoop ⟨true, k, 1⟩ doc (passFuel doc) State.init 0 0 with
+      | none => s!"DIFF {cls} model-out-of-fuel"
+      | some (s, mpasses, _) =>
+        if observe doc s != (kept, specRoots kept) then s!"DIFF {cls} model-observation-differs-from-spec (kept, roots)"
+        else if toString mpasses != passes then s!"DIFF {cls} passes model={mpasses} impl={passes}"
+        else
+        let g := geomStr kept (roots doc s)
+        if normCount (f "geom=") != g then s!"DIFF {cls} Geom model={g} impl={f "geom="}"
+        else if normCount (f "dcount=") != countStr (countTags kept) then
+          s!"DIFF {cls} Data.CountTags model={countStr (countTags kept)} impl={f "dcount="}"
+        else if normCount (f "count=") != countStr (countTags doc) then
+          s!"DIFF {cls} CountTags model={countStr (countTags doc)} impl={f "count="}"
+        else s!"OK {cls}"
+    | _ => s!"DIFF {cls} unparsable-implementation-answer"
+  | _ => s!"SPEC {cls} ExtractPBF-fails {pbf}"
+
 def tokens (line : String) : List String := (line.splitOn " ").filter (· ≠ "")
 
 /-- `<bounds>`, `<note>`, `<user>` elements of the file: the scanner yields them, the worker's empty
@@ -304,6 +440,10 @@ def judgeLine (line : String) : String :=
     let keepToks := rest.takeWhile (· ≠ "|")
     match parseDoc (rest.drop (keepToks.length + 1)) with
     | some doc => judgeHist keepToks doc rhs
+    | none => "BAD parse"
+  | "p" :: _variant :: keepTok :: "|" :: objToks =>
+    match parseDoc objToks with
+    | some doc => judgePbf keepTok doc rhs
     | none => "BAD parse"
   | "c" :: n :: keepTok :: "|" :: objToks =>
     match parseDoc objToks with
@@ -341,6 +481,8 @@ def judgeLine (line : String) : String :=
           s!"SPEC {cls} sequential-extract-is-not-the-least-closed-set got={im.seqIds} want={want}"
         else if im.parIds.any (· != want) then
           s!"SPEC {cls} result-depends-on-schedule runs={im.parRuns} got={";".intercalate im.parIds} want={want}"
+        else if im.parDigs.any (· != im.seqDig) then
+          s!"SPEC {cls} result-depends-on-schedule (same ids; stored objects / Geom / CountTags differ) runs={im.parRuns} digests={";".intercalate im.parDigs} seq={im.seqDig}"
         else if !dang && (im.seqChk != "ok" || im.parChkFails != 0) then
           s!"SPEC {cls} Check-fails-on-extract-of-document-without-dangling-references"
         else if im.filtPanic then s!"SPEC {cls} Filter-panics"
